@@ -23,6 +23,7 @@ type C04Op struct {
 	Results []int  `json:"results,omitempty"` // what <M>Func returns for this call
 	Slot    int    `json:"slot"`
 	On      bool   `json:"on"`
+	Reenter bool   `json:"reenter"` // the user function reads <M>Calls() of its own method while it runs
 }
 
 type c04Input struct {
@@ -64,6 +65,7 @@ func (c04) Generate(c *Ctx) []any {
 				if m.Variadic >= 0 && r.Intn(4) != 0 {
 					op.VarArg = r.Intn(len(bTypes[m.Variadic].Vals))
 				}
+				op.Reenter = r.Intn(4) == 0
 				in.Ops = append(in.Ops, op)
 			case x < 70:
 				in.Ops = append(in.Ops, C04Op{Op: "calls", M: mi, VarArg: -1})
@@ -160,6 +162,7 @@ func fmtRecs(types []int, v any) string {
 }
 
 var next = map[string][]int{}
+var reenter bool
 
 func TestDriver(t *testing.T) {
 	mock := &MockStore{}
@@ -186,8 +189,8 @@ func TestDriver(t *testing.T) {
 		} else if len(rts) > 1 {
 			rsig = " (" + strings.Join(rts, ", ") + ")"
 		}
-		fmt.Fprintf(&b, "\tset%s := func(on bool) {\n\t\tif !on {\n\t\t\tmock.%sFunc = nil\n\t\t\treturn\n\t\t}\n\t\tmock.%sFunc = func(%s)%s {\n\t\t\tev(%s)\n",
-			m.Name, m.Name, m.Name, strings.Join(ps, ", "), rsig, strings.Join(append([]string{`"saw"`, fmt.Sprintf("%q", m.Name)}, toks...), ", "))
+		fmt.Fprintf(&b, "\tset%s := func(on bool) {\n\t\tif !on {\n\t\t\tmock.%sFunc = nil\n\t\t\treturn\n\t\t}\n\t\tmock.%sFunc = func(%s)%s {\n\t\t\tev(%s)\n\t\t\tif reenter {\n\t\t\t\tev(\"reentered\", fmt.Sprint(len(mock.%sCalls())))\n\t\t\t}\n",
+			m.Name, m.Name, m.Name, strings.Join(ps, ", "), rsig, strings.Join(append([]string{`"saw"`, fmt.Sprintf("%q", m.Name)}, toks...), ", "), m.Name)
 		if len(rets) > 0 {
 			fmt.Fprintf(&b, "\t\t\treturn %s\n", strings.Join(rets, ", "))
 		}
@@ -209,7 +212,7 @@ func TestDriver(t *testing.T) {
 			if m.Variadic >= 0 && op.VarArg >= 0 {
 				args = append(args, valExpr(m.Variadic, op.VarArg)+"...")
 			}
-			fmt.Fprintf(&b, "\tnext[%q] = %s\n", m.Name, typesLit(op.Results))
+			fmt.Fprintf(&b, "\tnext[%q] = %s\n\treenter = %v\n", m.Name, typesLit(op.Results), op.Reenter)
 			call := fmt.Sprintf("mock.%s(%s)", m.Name, strings.Join(args, ", "))
 			if len(m.Results) == 0 {
 				fmt.Fprintf(&b, "\tguarded(func() {\n\t\t%s\n\t\tev(\"returned\")\n\t})\n", call)
@@ -274,6 +277,10 @@ func c04Expected(in *c04Input) [][]string {
 					saw += " " + args
 				}
 				evs = append(evs, saw)
+				if op.Reenter {
+					// the call is already recorded when the function runs
+					evs = append(evs, fmt.Sprintf("reentered %d", len(recs[op.M])+1))
+				}
 				ret := "returned"
 				for i, t := range m.Results {
 					ret += " " + tokenOf(t, op.Results[i])
